@@ -148,3 +148,15 @@ Theorem C01_api_round_trip :
     flat_events r = ns_events o d ++ events_of c d /\ pr_end r = PEnd.
 Proof. exact api_round_trip. Qed.
 Print Assumptions C01_api_round_trip.
+
+(* with the table limit enforced when the options are built (C13), being created is enough for the tables *)
+Theorem C01_api_round_trip_created :
+  forall (c : stream_class) (o : soptions) (d : sdata) (s' : stream) (evs : list tev) (grouped : bool),
+    api_encode c Generic o d = Ok (s', evs) -> raised evs = None ->
+    (forall s, stream_new c Generic o = Ok s -> known_logical (st_logical s) = true /\ fl_rows (st_flow s) = []) ->
+    (c = GraphStream -> forallb wf_quad (d_stmts d) = true) ->
+    Forall small (emitted evs) ->
+    let r := api_parse Generic grouped false (write_delimited (emitted evs)) in
+    flat_events r = ns_events o d ++ events_of c d /\ pr_end r = PEnd.
+Proof. exact api_round_trip_created. Qed.
+Print Assumptions C01_api_round_trip_created.
